@@ -68,6 +68,14 @@ class Report:
   def undecided(self, rule, subject, why, loc=''):
     self.instances.append(Instance(rule, subject, 'undecided', why, loc, True))
 
+  def check3(self, verdict, rule, subject, func, construct, message, loc, why_open='', detail='', nontrivial=True):
+    """Three-valued obligation: True discharged, False a recognised contradiction (violation), None not decided (the
+    construct is not understood: `why_open` says what was left unresolved)."""
+    if verdict is None:
+      self.undecided(rule, subject, why_open or 'the construct is not in a form the rule understands', loc)
+      return None
+    return self.check(bool(verdict), rule, subject, func, construct, message, loc, detail, nontrivial)
+
   def check(self, cond, rule, subject, func, construct, message, loc, detail='', nontrivial=True):
     if cond:
       self.ok(rule, subject, detail, loc, nontrivial)
